@@ -56,6 +56,8 @@ pub struct Ctx {
     pub replay: Option<(String, u64)>,
     pub case_timeout_s: u64,
     pub verif_dir: String,
+    /// (i, n): only cases with idx % n == i are run (parallel sharding of slow lanes)
+    pub shard: (u64, u64),
     state: Mutex<State>,
     stop: AtomicBool,
     start: Instant,
@@ -138,6 +140,7 @@ impl Ctx {
             lane: lane.to_string(),
             replay: None,
             case_timeout_s: 60,
+            shard: (0, 1),
             verif_dir: std::env::var("VERIF_DIR").unwrap_or_else(|_| "/verif".to_string()),
             state: Mutex::new(State::default()),
             stop: AtomicBool::new(false),
@@ -155,6 +158,10 @@ impl Ctx {
             Tier::Quick => quick,
             Tier::Thorough => thorough,
         };
+        if self.is_miri() {
+            // interpreter lanes: `scale` is the absolute number of cases per group
+            return (self.scale.ceil() as u64).max(1).min(base);
+        }
         ((base as f64 * self.scale).ceil() as u64).max(1)
     }
 
@@ -259,6 +266,9 @@ impl Ctx {
                         for idx in lo..(lo + chunk).min(last) {
                             if self.stop.load(Ordering::SeqCst) {
                                 break 'outer;
+                            }
+                            if idx % self.shard.1 != self.shard.0 && self.replay.is_none() {
+                                continue;
                             }
                             let mut sample: Option<Value> = None;
                             let want_sample =
@@ -395,6 +405,7 @@ impl Ctx {
         let part = json!({
             "property_id": self.prop,
             "lane": self.lane,
+            "shard": format!("{}/{}", self.shard.0, self.shard.1),
             "tier": self.tier.name(),
             "seed": self.seed,
             "scale": self.scale,
@@ -415,7 +426,7 @@ impl Ctx {
         if self.replay.is_none() {
             let dir = format!("{}/evidence/parts", self.verif_dir);
             let _ = std::fs::create_dir_all(&dir);
-            let path = format!("{}/{}.{}.json", dir, self.prop, self.lane);
+            let path = format!("{}/{}.{}.{}of{}.json", dir, self.prop, self.lane, self.shard.0, self.shard.1);
             let _ = std::fs::write(&path, serde_json::to_string_pretty(&part).unwrap());
         }
         let viols = st.violations.clone();
